@@ -19,7 +19,7 @@ does not cascade into the reader lines).
                                                       pred (every item filled exactly): item i = concatenation of its writes
   `st [hex…]`             => `hex end blen [t…] [s:i…] eq`   pred: table = permutation of the distinct strings, counts
                                                       non-increasing, builder index of t_i = i, Equal agrees
-  `map b t [id:tag:hex…]` => `b' t' hex end blen rlen` | `panic`
+  `map b t [id:tag:hex…]` => `b' t' hex end blen rlen` | `panic`   pred (tags < 2^t'): the build succeeds (reserve = write sizes)
   `fill id`               => `[tag:hex…]`             pred: = entries written under id, in write order
   `first id`              => `tag:hex` | `none`       pred: = first of them
   `firsttag id tag`       => `hex` | `none`           pred: = first of them with the tag
@@ -296,7 +296,11 @@ def step (st : St) (op impl : String) : St × Verdict :=
       let view := match words impl with
         | [_, _, h, _, _, _] => (parseHex h).bind mapOpen
         | _ => none
-      ({ entries := es, view := view }, judgeM impl m)
+      -- predicate: entries whose tags fit the layout must be writable (the reserve pass and the write pass
+      -- size every bucket identically) — a builder that panics or errs loses them
+      let built := match words impl with | [_, _, _, _, _, _] => true | _ => false
+      ({ entries := es, view := view },
+        if tagsFit && !built then .propfail "map_reserve_write" else judgeM impl m)
     | _, _, _ => (st, .bad)
   | ["fill", ids] =>
     match u64? ids, st.view with
